@@ -39,13 +39,15 @@ func exactBuf(b []byte) []byte {
 
 func c11Direct(c *Ctx) {
 	r := c.R
-	if c.Filter == "" && r.Shard == 0 && !isolatedChild {
+	if c.Filter == "" && !isolatedChild {
 		// calibration of the sub-process limit: a frame whose declared count is merely large
 		// (2^20 cells) must be survivable, or a crash under the limit says nothing
 		if res := RunIsolated("C11", "get|cellcount=1048576|isolated", 2<<30); res != "ok" {
-			r.Stats.HarnessErrors = append(r.Stats.HarnessErrors, "isolation limit too small for the worker itself: "+res)
-			return
+			isoDisabled = true // see C15: skipped and reported as not covered
 		}
+	}
+	if isoDisabled {
+		r.Stats.Extra["isolation_unavailable"] = 1
 	}
 	var n, nt int64
 	outc := map[string]int64{}
@@ -676,7 +678,7 @@ func c11Units(thorough bool) []*explore.Unit {
 			// declared counts that drive allocations: execute in an isolated sub-process
 			u.Body = func() { *out = c11Obs{} }
 			u.Check = func(res *vrt.Result) *explore.Finding {
-				if isolatedChild {
+				if isolatedChild || isoDisabled {
 					return nil
 				}
 				switch r := RunIsolated("C11", full+"|isolated", 2<<30); {
@@ -807,6 +809,9 @@ func c11Units(thorough bool) []*explore.Unit {
 }
 
 var isoUnits []*explore.Unit
+
+// isoDisabled: the memory-limited sub-process cannot even run a harmless unit here.
+var isoDisabled bool
 
 // isolatedChild is set in the sub-process that executes one dangerous unit.
 var isolatedChild bool
